@@ -21,6 +21,7 @@ ASSUMPTIONS = ["networkx Graph.edges()/nodes()/degree() enumerate the simple gra
                "matrices are compared as key -> value maps)",
                "float results are compared with exact rationals within 1e-9"]
 TRUSTED = ["float -> exact Fraction conversion of the implementation's matrix entries before c13_check"]
+PARTIAL = ['repeatability (C13_repeat) holds by construction of the model, which mirrors the fixed code (the counter is reset on every extraction); a regression of that reset is caught by the correspondence (several extractions on one object), not by a theorem']
 TECHNIQUE = "Coq proof (finite sums over Q, induction over the call history) + model/implementation correspondence"
 LEVEL_TEXT = (
     "General theorems in coq/Props/C13.v for every annotated network (any size, any number of topologies): each "
